@@ -847,6 +847,37 @@ func (u *Unit) specCall(x *ast.CallExpr, env *Env, sc *specCtx) Value {
 		fn := fmt.Sprintf("dyn_%s_%s_0", parts[0], parts[1])
 		u.D.Fun(fn, rs, ss...)
 		return Value{App(fn, rs, ts...), rt}
+	case "replaceAll":
+		u.D.Fun("str_replaceall", SStr, SStr, SStr, SStr)
+		a, b, c3 := u.sv(x.Args[0], env, sc), u.sv(x.Args[1], env, sc), u.sv(x.Args[2], env, sc)
+		return Value{App("str_replaceall", SStr, a.Term, b.Term, c3.Term), types.Typ[types.String]}
+	case "sprintf":
+		// fmt.Sprintf(format, args...) as the engine models it: an uninterpreted function of the format and the boxed arguments
+		var ts []Term
+		var ss []Sort
+		for i, a := range x.Args {
+			v := u.sv(a, env, sc)
+			if i > 0 || v.Sort != SStr {
+				v = u.specBox(v, env)
+			}
+			ts = append(ts, v.Term)
+			ss = append(ss, v.Sort)
+		}
+		fnm := fmt.Sprintf("sprintf_%d", len(ts))
+		u.D.Fun(fnm, SStr, ss...)
+		return Value{App(fnm, SStr, ts...), types.Typ[types.String]}
+	case "urlString":
+		u.D.Fun("url_string", SStr, SRef)
+		a := u.sv(x.Args[0], env, sc)
+		return Value{App("url_string", SStr, a.Term), types.Typ[types.String]}
+	case "reqBodyOf":
+		u.D.Fun("req_body_of", SVal, SVal)
+		a := u.specBox(u.sv(x.Args[0], env, sc), env)
+		return Value{App("req_body_of", SVal, a.Term), types.NewInterfaceType(nil, nil)}
+	case "hdrAdded":
+		u.D.Fun("hdr_added", SSlice, SSlice, SStr)
+		a, b := u.sv(x.Args[0], env, sc), u.sv(x.Args[1], env, sc)
+		return Value{App("hdr_added", SSlice, a.Term, b.Term), types.NewSlice(types.Typ[types.String])}
 	case "regexMatch":
 		// the library's regexp.MatchString as an uninterpreted pair (matches, error)
 		u.D.Fun("regex_match", SBool, SStr, SStr)
